@@ -4,6 +4,7 @@ import sys
 from sa import report, rules_sibling as RSB, rules_read as RD, rules_opts as RO, rules_order as RO2
 from sa import rules_state as RSTATE
 from sa import rules_extra as RX
+from sa import rules_lang as RLANG
 from sa import rules_grammar as RG
 from sa import rules_reader as RRD
 
@@ -38,6 +39,9 @@ def run(ctx, repo):
     RG.r_parser_grammar(ctx, repo, max_len=8 if ctx.tier == 'thorough' else 6)
 
     RSTATE.r_directives_reset(ctx, repo)
+    # the LibYAML composer hands the event's (plain, quoted) flags to resolve() unchanged; so must the Python composer
+    RLANG.r_resolve_index(ctx, repo)
+
 
 if __name__ == '__main__':
     sys.exit(report.main('C06', 'other', run))
